@@ -30,6 +30,47 @@ def volume_of(field):
     return float(np.broadcast_to(dV, (dV.shape[0], reg.mesh.ncells)).sum())
 
 
+QUAD_EDGES = [(0, 1, 4), (1, 2, 5), (2, 3, 6), (3, 0, 7)]  # VTK: corner, corner, mid-edge node
+HEX_FACES = [(0, 3, 2, 1), (4, 5, 6, 7), (0, 1, 5, 4), (1, 2, 6, 5), (2, 3, 7, 6), (3, 0, 4, 7)]  # outward
+HEX_EDGE_MID = {frozenset(e[:2]): e[2] for e in [(0, 1, 8), (1, 2, 9), (2, 3, 10), (3, 0, 11), (4, 5, 12), (5, 6, 13), (6, 7, 14), (7, 4, 15), (0, 4, 16), (1, 5, 17),
+                                                  (2, 6, 18), (3, 7, 19)]}
+
+
+def requested_area_vector(mesh, mask, x):
+    """Current area vector of the faces of a quadratic quad / hexahedron body that a point mask selects (every node of the face in the mask),
+    oriented out of the owning cell; tables and integration are the oracle's own (faces shared by two cells cancel, so interior faces of a
+    mask that covers a whole side do not matter)."""
+    X, cells = mesh.points, mesh.cells
+    tot = np.zeros(X.shape[1])
+    g, w = np.polynomial.legendre.leggauss(4)
+    for c in cells:
+        cen = X[c[: 4 if X.shape[1] == 2 else 8]].mean(0)
+        if X.shape[1] == 2:
+            for a, b, m in QUAD_EDGES:
+                if mask[c[a]] and mask[c[b]] and mask[c[m]]:
+                    rot = lambda v: np.array([v[1], -v[0]])
+                    sgn = np.sign(rot(X[c[b]] - X[c[a]]) @ (0.5 * (X[c[a]] + X[c[b]]) - cen))
+                    tot += sgn * rot(x[c[b]] - x[c[a]])
+        else:
+            for fc in HEX_FACES:
+                mids = [HEX_EDGE_MID[frozenset((fc[e], fc[(e + 1) % 4]))] for e in range(4)]
+                if not all(mask[c[i]] for i in list(fc) + mids):
+                    continue
+
+                def loop(P):
+                    v = np.zeros(3)
+                    for e in range(4):
+                        Q = np.stack([P[c[fc[e]]], P[c[mids[e]]], P[c[fc[(e + 1) % 4]]]])
+                        for t, wt in zip(g, w):
+                            N = np.array([t * (t - 1) / 2, 1 - t * t, t * (t + 1) / 2])
+                            dN = np.array([t - 0.5, -2 * t, t + 0.5])
+                            v += wt * np.cross(N @ Q, dN @ Q)
+                    return v / 2
+                sgn = np.sign(loop(X) @ (X[c[list(fc)]].mean(0) - cen))
+                tot += sgn * loop(x)
+    return tot
+
+
 def rim_area_vector(reg, f):
     """Integrated current area vector of the loaded faces from the deformed positions of the nodes on their rims only
     (Stokes: int n da = 1/2 loop-integral x cross dx; in 2D the rotated chord; axisymmetric axial part pi (r_b^2 - r_a^2)),
@@ -720,9 +761,18 @@ def case_loads(rep):
                     fbq = fem.FieldContainer([Fld(rbq, dim=dq)])
                     fq = fem.FieldContainer([Fld(gen.make_region(fam, mq), dim=dq)])
                     fq[0].values[:] = gen.random_displacement(rng, mq, grad=0.2)
-                    pq = fem.SolidBodyPressure(fbq, pressure=float(rng.uniform(-2, 2)))
-                    pq.assemble.vector(fq)
+                    pval = float(rng.uniform(-2, 2))
+                    pq = fem.SolidBodyPressure(fbq, pressure=pval)
+                    rq = pq.assemble.vector(fq).toarray().reshape(-1, dq).sum(0)
                     run.units["pressure:quadratic-boundary:" + fam] += 1
+                    if mask is not None:
+                        # the loaded faces are the ones the caller ASKED for (round 10: a template that drops its mask loads the whole outline, and
+                        # the hook's reference - built from the region's own faces - follows it): faces of the body's cells, from the oracle's own
+                        # VTK tables, whose nodes all lie in the requested point mask; area vector from the deformed rims (Stokes)
+                        A_req = requested_area_vector(mq, mask, mq.points + fq[0].values[:, :dq])
+                        run.compare("items.pressure", "item=SolidBodyPressure[%s] clause=resultant-of-the-requested-faces" % R, maxabs(rq + pval * A_req) / max(abs(pval) * maxabs(A_req), 1e-300), 1e-11,
+                                    "follower pressure on %s(mask=one side of the body): the resultant is not minus the pressure times the current area vector of the "
+                                    "faces selected by the mask" % R, unit="pressure:requested-mask:" + fam, config=(R, "requested-mask"))
             # small-strain law in a solid body: forces still sum to zero (no moment balance is claimed for it)
             fl, ml, _ = C01.make_field("3d", "hexahedron", "distorted", rng)
             C01.random_state(rng, fl, grad=0.05)
@@ -1016,7 +1066,7 @@ SPEC = {
         "resultant:SolidBodyPressure[Field]:all-faces-zero", "resultant:SolidBodyPressure[FieldPlaneStrain]:all-faces-zero",
         "resultant:SolidBodyPressure[FieldAxisymmetric]:all-faces-zero", "pressure:array-valued", "pressure:requested-zero",
         "pressure-forms:plain2d:open", "pressure-forms:axisymmetric:open", "pressure-forms:axisymmetric:open-face-touching-the-axis",
-        "pressure-forms:boundary:RegionQuadraticQuadBoundary",
+        "pressure-forms:boundary:RegionQuadraticQuadBoundary", "pressure:requested-mask:quad8", "pressure:requested-mask:quad9", "pressure:requested-mask:hexahedron20", "pressure:requested-mask:hexahedron27",
         "pressure-forms:boundary:RegionBiQuadraticQuadBoundary", "pressure-forms:boundary:RegionQuadraticHexahedronBoundary",
         "pressure-forms:boundary:RegionTriQuadraticHexahedronBoundary",
         "pointload:points-as-list", "pointload:points-as-mask", "pointload:points-as-negative-ids", "pointload:points-as-array",
